@@ -204,6 +204,26 @@ def run_case(case, seed):
             ref = ref_conv(dd.reshape([B, ci] + m), ff.reshape([co, ci] + n), m, n, mode, s, B, ci, co).reshape(oshape)
             if list(y.shape) != oshape or not np.abs(y - ref).max() <= TOL * max(1, np.abs(ref).max()):
                 V("definition", "conv.convolve", "dense arguments: result differs from the definition (imaginary part dropped or conjugated?)")
+            # structured values: shortcuts that are exact for generic arguments and wrong for special ones (taps or samples
+            # that sum to zero, alternate in sign, are all equal, purely imaginary, zero except one)
+            def structured(n_, dt_):
+                k_ = np.arange(n_)
+                out_ = [("zero-sum pair", np.where(k_ == 0, 1.0, 0) - np.where(k_ == n_ - 1, 1.0, 0)),
+                        ("alternating", (-1.0) ** k_), ("constant", np.ones(n_)),
+                        ("zero-mean", k_ - (n_ - 1) / 2.0), ("all zero", np.zeros(n_))]
+                if dt_ is np.complex128:
+                    out_ += [("purely imaginary", 1j * (k_ + 1.0)), ("complex zero-sum", (1 + 2j) * ((-1.0) ** k_) * (k_ < 2 * (n_ // 2)))]
+                return out_
+            for which in ("filter", "data"):
+                for label, vec in structured(Q if which == "filter" else P, fdt if which == "filter" else ddt):
+                    f2 = vec.reshape(fshape).astype(fdt) if which == "filter" else ff
+                    d2 = vec.reshape(dshape).astype(ddt) if which == "data" else dd
+                    y2 = sp.convolve(d2, f2, **kw)
+                    trans += 1
+                    ref2 = ref_conv(d2.reshape([B, ci] + m), f2.reshape([co, ci] + n), m, n, mode, s, B, ci, co).reshape(oshape)
+                    if list(y2.shape) != oshape or not np.abs(y2 - ref2).max() <= TOL * max(1, np.abs(ref2).max()):
+                        V("definition", "conv.convolve", "%s = %s values: result differs from the definition" % (which, label))
+                        break
             # bilinear => homogeneous in each argument at any scale (no absolute thresholds on "small" taps or samples)
             for sd, sf in ((1e-9, 1.0), (1.0, 1e-9), (1e9, 1e-9), (1e-12, 1e-12)):
                 ys = sp.convolve((sd * dd).astype(ddt), (sf * ff).astype(fdt), **kw)
